@@ -316,6 +316,42 @@ const rootJSON = `{
 }
 `
 
+// two files of one module: a.tf holds a counted block right at the top and its
+// only reference far down; b.tf holds references and number-typed values at
+// low byte offsets (inside the byte span of a.tf's block).
+const twoFilesA = `resource "aws_instance" "counted" {
+  count         = 2
+  ami           = "ami-0123456789"
+  instance_type = "t2.micro"
+  monitoring    = true
+  tags = {
+    Name  = "counted"
+    Owner = "team-a"
+  }
+  ebs_block_device {
+    device_name = "/dev/sda1"
+  }
+}
+
+output "late" {
+  value = var.shared
+}
+`
+
+const twoFilesB = `resource "aws_instance" "plain" {
+  ebs_block_device {
+    volume_size = 1
+    device_name = lower(var.shared)
+  }
+  ami           = var.shared
+  instance_type = "t2.micro"
+}
+
+variable "shared" {
+  type = string
+}
+`
+
 func crlf(s string) string { return strings.ReplaceAll(s, "\n", "\r\n") }
 
 var configs = map[string]config{
@@ -335,6 +371,9 @@ var configs = map[string]config{
 	},
 	"tf-json": {
 		Root: map[string]string{"main.tf.json": rootJSON, "main.tf": smallMain},
+	},
+	"tf-twofiles": {
+		Root: map[string]string{"a.tf": twoFilesA, "b.tf": twoFilesB},
 	},
 	"tf-child-only": {
 		Root:  map[string]string{"main.tf": "module \"kid\" {\n  source = \"./child\"\n  name   = \"n\"\n}\n\noutput \"g\" {\n  value = module.kid.greeting\n}\n"},
